@@ -477,7 +477,9 @@ def gen_replace(rng, big=False):
     s.main += ["C%d" % u]
     if late:
         # the join request is posted first, the replacement comes second
-        s.ext.append(["j1"])
+        # (the external thread starts with the scenario: it waits until the unit runs, otherwise its request can reach
+        # a stream whose pool is still empty, which then stops before the unit is pushed - a legal outcome)
+        s.ext.append(["d%d" % u, "j1"])
         s.main += ["F%d" % u]
     else:
         s.main += ["Y"] * rng.randint(0, 3) + ["F%d" % u]
